@@ -741,8 +741,11 @@ impl LinkRelay<OutputHandle> {
                             // the sender and receiving a disposition indicating settlement of the
                             // delivery from the sender.
 
-                            // is_terminal
-                            true
+                            // Only a terminal outcome ends the receiver's processing;
+                            // settling on a non-terminal state (e.g. `received`) would
+                            // make the receiver forget a delivery whose outcome the
+                            // sending application is still waiting for.
+                            is_terminal
                         }
                     }
                 };
